@@ -68,6 +68,9 @@ def build_driver(pkg):
     return out
 
 
+ENV_DROPPED = 0
+
+
 def run_driver(binary, test, env=None, timeout=3600, cwd=None, ok_rc=(0,)):
     """Run one driver test; returns stdout. Driver failure is machinery failure."""
     e = dict(os.environ, **GOENV)
@@ -85,6 +88,14 @@ def run_driver(binary, test, env=None, timeout=3600, cwd=None, ok_rc=(0,)):
         tail = "\n".join([ln for ln in out.splitlines() if not ln.startswith("    ") or "verif" in ln][-60:])
         raise Broken("driver %s failed rc=%d:\n%s" % (test, p.returncode, tail))
     log("driver %s ok in %.1fs" % (test, time.time() - t0))
+    # inputs the driver dropped because the embedded etcd itself failed while they ran (harness/vt: EnvFailedSince)
+    side = e.get("VERIF_TRACE", "") + ".envdropped"
+    if e.get("VERIF_TRACE") and os.path.exists(side):
+        global ENV_DROPPED
+        try:
+            ENV_DROPPED += int(open(side).read().strip() or 0)
+        finally:
+            os.remove(side)
     return out
 
 
